@@ -42,6 +42,12 @@ func gen(t *rapid.T) peng.Case {
 			c.Ops = append(c.Ops[:at], append([]peng.Op{op}, c.Ops[at:]...)...)
 		}
 	}
+	// a short dial timeout and probes that take longer than it: nothing that was set up under the
+	// dial timeout may limit how long a later call can take
+	if rapid.IntRange(0, 3).Draw(t, "slowProbes") == 0 {
+		c.Mgrs[0].TightDial, c.Mgrs[0].DialTimeoutMs = true, 15
+		c.ProbeSleepUs = 25000
+	}
 	c.GoMaxProcs = rapid.SampledFrom([]int{0, 0, 1, 2, 4}).Draw(t, "gomaxprocs")
 	c.Jitter = peng.GenJitter(t)
 	return c
@@ -97,6 +103,9 @@ func run(c peng.Case) vt.Verdict {
 	if cancelled {
 		classes = append(classes, "cancellations")
 	}
+	if c.ProbeSleepUs > 0 {
+		classes = append(classes, "probes-slower-than-the-dial-timeout")
+	}
 	for _, op := range c.Ops {
 		if op.Kind == "call" && scen.IsUnhandled(op.Call.Kind) {
 			classes = append(classes, "call-of-method-without-handler")
@@ -143,7 +152,7 @@ func run(c peng.Case) vt.Verdict {
 func TestProp(t *testing.T) {
 	vt.Main(t, vt.Spec[peng.Case]{
 		ID:           "C09",
-		Rule:         "rapid-generated workloads: 4-40 calls of all 20 kinds from 1-6 threads with barriers on 1-4 reachable servers, cancellations and deadlines at generated instants (1 us - 5 ms), thresholds up to the configuration size, correctable completion, slow quorum functions (up to 20 ms), slow/holding/early-releasing/failing handlers that always return, server streams that send up to 6 replies per node, GOMAXPROCS 1/2/4/default, in 1 of 4 cases a client send-size limit with requests too large to send, in 1 of 4 cases 1-3 calls (two-way with a deadline, or one-way) of methods of another registered service for which the servers have no handler, in half of the cases seeded jitter at the statement-level yield points of the instrumented runtime; after the workload drains, an RPC with a fresh context to every node must return that node's genuine reply (black-box probe; a failed probe is confirmed by two goroutine dumps 10 s apart); non-trivial (measured) = a stream was re-created after a cancelled send, or a stream call was abandoned with replies outstanding, or a slow quorum function, or a request too large to send, or a call of a method without a handler",
+		Rule:         "rapid-generated workloads: 4-40 calls of all 20 kinds from 1-6 threads with barriers on 1-4 reachable servers, cancellations and deadlines at generated instants (1 us - 5 ms), thresholds up to the configuration size, correctable completion, slow quorum functions (up to 20 ms), slow/holding/early-releasing/failing handlers that always return, server streams that send up to 6 replies per node, GOMAXPROCS 1/2/4/default, in 1 of 4 cases a client send-size limit with requests too large to send, in 1 of 4 cases 1-3 calls (two-way with a deadline, or one-way) of methods of another registered service for which the servers have no handler, in half of the cases seeded jitter at the statement-level yield points of the instrumented runtime; in 1 of 4 cases a 15 ms dial timeout and probe handlers that take 25 ms; after the workload drains, an RPC with a fresh context to every node must return that node's genuine reply (black-box probe; a failed probe is confirmed by two goroutine dumps 10 s apart); non-trivial (measured) = a stream was re-created after a cancelled send, or a stream call was abandoned with replies outstanding, or a slow quorum function, or a request too large to send, or a call of a method without a handler",
 		Gen:          gen,
 		Run:          run,
 		TrackCurrent: true,
